@@ -107,6 +107,52 @@ theorem run_of_steps (code : Code) {σ τ υ : Vm} (h : Steps code σ τ) (hh : 
     obtain ⟨ω, h1, h2⟩ := hn k (by omega)
     exact ⟨ω, by simp [CoreVm.run, hs, h1], h2⟩
 
+theorem run_of_steps_error (code : Code) {σ τ υ : Vm} {c : Nat} {p : Pos} (h : Steps code σ τ)
+    (hh : CoreVm.step code τ = .error c p υ) :
+    ∃ n, ∀ m, n ≤ m → CoreVm.run code m σ = .error c p υ := by
+  induction h with
+  | refl σ =>
+    refine ⟨1, fun m hm => ?_⟩
+    obtain ⟨k, rfl⟩ : ∃ k, m = k + 1 := ⟨m - 1, by omega⟩
+    simp [CoreVm.run, hh]
+  | cons hs _ ih =>
+    obtain ⟨n, hn⟩ := ih hh
+    refine ⟨n + 1, fun m hm => ?_⟩
+    obtain ⟨k, rfl⟩ : ∃ k, m = k + 1 := ⟨m - 1, by omega⟩
+    simp [CoreVm.run, hs, hn k (by omega)]
+
+/-- **`C01_run_correct`** — `C01_core_correct` restated for the bounded interpreter `CoreVm.run` that the
+correspondence check executes against the real VM: for every sufficient step budget the run of the generated code ends
+as the reference semantics prescribes -/
+theorem C01_run_correct (prog : SProgram) (fuel : Nat) (hw : WfTop prog.slots prog.body) :
+    match Ref.run fuel prog.toAst with
+    | (s', .normal) => ∃ n υ, (∀ m, n ≤ m → CoreVm.run (compile prog) m (Vm.init prog.slots) = .halted υ) ∧
+        υ.env = s'.env ∧ υ.out = s'.out
+    | (s', .halted) => ∃ n υ, (∀ m, n ≤ m → CoreVm.run (compile prog) m (Vm.init prog.slots) = .halted υ) ∧
+        υ.env = s'.env ∧ υ.out = s'.out
+    | (s', .error c p) => ∃ n υ, (∀ m, n ≤ m → CoreVm.run (compile prog) m (Vm.init prog.slots) = .error c p υ) ∧
+        υ.out = s'.out
+    | (_, .inexact) => True
+    | (_, .outOfFuel) => True := by
+  have h := C01_core_correct prog fuel hw
+  generalize Ref.run fuel prog.toAst = r at h ⊢
+  obtain ⟨s', o⟩ := r
+  cases o with
+  | normal =>
+    obtain ⟨τ, υ, st, hh, he, ho⟩ := h
+    obtain ⟨n, hn⟩ := run_of_steps _ st hh
+    exact ⟨n, υ, fun m hm => by obtain ⟨ω, h1, h2⟩ := hn m hm; rw [h1, h2], he, ho⟩
+  | halted =>
+    obtain ⟨τ, υ, st, hh, he, ho⟩ := h
+    obtain ⟨n, hn⟩ := run_of_steps _ st hh
+    exact ⟨n, υ, fun m hm => by obtain ⟨ω, h1, h2⟩ := hn m hm; rw [h1, h2], he, ho⟩
+  | error c p =>
+    obtain ⟨τ, υ, st, hh, ho⟩ := h
+    obtain ⟨n, hn⟩ := run_of_steps_error _ st hh
+    exact ⟨n, υ, hn, ho⟩
+  | inexact => trivial
+  | outOfFuel => trivial
+
 /-! #### non-vacuity: a concrete program in the covered fragment, its code and its run -/
 
 private def demoProg : SStmt :=
